@@ -6,8 +6,9 @@ timeout (orphan), break a connection, run the next executor task (the connection
 accepted or refused), shut the pool down} on a real Session whose pool for the host under test is a
 `HostConnection` (protocol v4) or a `HostConnectionPool` (protocol v2, core 1 / max 2).
 Engine S: the races the histories cannot contain (a handler is atomic there): replacement / pool
-growth against shutdown, borrow against return against shutdown, with a scheduling point at every
-source line of the pool class.
+growth against shutdown, borrow against return against shutdown, two borrows against each other at
+the capacity boundary, a borrow against a (refused, retried) replacement, with a scheduling point at
+every source line of the pool class.
 """
 from vt import explore, sched
 from vt import poollib    # noqa: F401  (imported here so that forked workers inherit the loaded driver)
@@ -17,17 +18,24 @@ META = {
     'engine': 'E+S',
     'technique': 'explicit-state BFS over request/response/timeout/fault/task/shutdown histories with canonical-state dedup, plus '
                  'preemption-bounded schedule exploration of the pool methods, on the real Session + pools over a virtual server',
-    'text': 'HostConnection (v4; 2-3 request slots, orphan threshold 2) and HostConnectionPool (v2; core 1, max 2, growth at 1 request, '
+    'text': 'HostConnection (v4; 2-4 request slots, orphan threshold 2) and HostConnectionPool (v2; core 1, max 2, growth at 1 request, '
             'trashing at 0) inside a real Cluster/Session.  Engine E: all histories up to the depth bound of: new request, answer to any '
             'outstanding request (incl. late answers to given-up ones), client timeout of any request, connection reset, next executor '
-            'task with its connect accepted or refused, pool shutdown; host convicted on failure or not.  In every state: 0 <= in_flight <= '
-            'number of stream ids on every connection the pool opened, the server never sees a stream id reused while outstanding nor more '
-            'outstanding requests than ids, a request issued / a borrow made after shutdown gets no connection; for every state after '
-            'shutdown the history is replayed into a second world where everything pending finishes (tasks, answers, timeouts): then every '
-            'connection the pool ever opened (current, trashed, opened by a late task) is closed and no task remains.  Engine S: 2-3 virtual '
-            'threads (client(s), reactor, executor worker, pool.shutdown()) with a scheduling point at every line of every method of the '
-            'pool class and at every lock/condition/event; all schedules within the preemption bound; same oracle at every point / at the end, '
-            'plus deadlock and livelock detection.',
+            'task with its connect accepted or refused, pool shutdown; host convicted on failure or not; started from the fresh pool, from a '
+            'connection that has just reached the orphan threshold, and from there with the replacement refused once and queued for its '
+            'retry (it may be refused again; requests, timeouts, answers and shutdown fall into the retry window).  In every state: 0 <= '
+            'in_flight <= request capacity on every connection the pool opened, where the capacity is what the application configured '
+            '(Connection.max_in_flight, at most the number of stream ids of the protocol version), not the driver\'s own max_request_id; '
+            'the server never has more requests outstanding on a connection than that capacity, never sees a stream id reused while '
+            'outstanding nor more outstanding requests than ids; a request issued / a borrow made after shutdown gets no connection; for '
+            'every state after shutdown the history is replayed into a second world where everything pending finishes (tasks, answers, '
+            'timeouts): then every connection the pool ever opened (current, trashed, opened by a late or repeated task) is closed and no '
+            'task remains.  Engine S: 2-3 virtual threads (client(s), reactor, executor worker, pool.shutdown()) with a scheduling point '
+            'at every line of every method of the pool class and at every lock/condition/event; all schedules within the preemption '
+            'bound; includes, for both pool classes, two clients borrowing at once when one slot is left / when the connection is full '
+            'and the reactor frees a slot, and a client borrowing while the replacement task runs, is refused and retried; a pool that no '
+            'thread shut down is shut down after the threads ended; same oracle at every point / at the end, plus deadlock and livelock '
+            'detection.',
     'note': 'Virtual server, clock, executor and connections as in DESIGN.md section 2 (VConnection implements push/close/create_timer '
             'only).  Client timeouts may expire in any order.  A polling loop that only real time would end is ended by a clock that '
             'advances after 3000 readings in one event.  _MIN_TRASH_INTERVAL is set to 0 for the v2 pool.',
@@ -41,8 +49,6 @@ HC = dict(prop='C12', clauses=CLAUSES, proto=4, max_in_flight=4, orphaned_thresh
           shutdown=True, convict=True)
 LEG = dict(prop='C12', clauses=CLAUSES, proto=2, max_in_flight=2, trash_interval=0, core=1, max_conns=2, min_reqs=0, max_reqs=1,
            n_req=3, max_defunct=1, max_fail=1, shutdown=True, convict=False)
-import os
-TRY3 = bool(os.environ.get('C12_TRY3'))
 OVERLOADED = [('req',), ('req',), ('timeout', 0), ('timeout', 1)]
 
 
@@ -72,20 +78,14 @@ def s_configs(ctx):
     hc = dict(prop='C12', clauses=CLAUSES, proto=4, max_in_flight=4, orphaned_threshold=2)
     leg = dict(prop='C12', clauses=CLAUSES, proto=2, max_in_flight=2, trash_interval=0, convict=False)
     b = 2 if ctx.thorough else 1
-    three = [
-        # one free slot, three clients and nobody who frees another: with two preemptions all three can sit between the
-        # capacity test and the increment
-        ('hc-one-slot-three-clients', dict(hc, max_in_flight=3, stage=[('req',)], shutdown_at_end=True,
-                                           threads=['client', 'client', 'client']), 2),
-        ('v2-one-slot-three-clients', dict(leg, max_conns=1, stage=[('req',)], shutdown_at_end=True,
-                                           threads=['client', 'client', 'client']), 2),
-    ] if ctx.thorough or TRY3 else []
-    return three + [
+    return [
         # a replacement task is queued, one live request is on the overloaded connection
         ('hc-replace-vs-shutdown', dict(hc, stage=OVERLOADED + [('req',)], threads=['worker', 'shutdown', 'reactor']), b),
         # a borrow, the return of an answered request and the shutdown overlap
         ('hc-borrow-return-shutdown', dict(hc, stage=[('req',)], threads=['client', 'reactor', 'shutdown']), b),
-        # two clients compete for the last slot while the reactor frees one
+        # one slot is left and two clients borrow at once (who loses waits until the reactor frees one)
+        ('hc-one-slot', dict(hc, max_in_flight=3, stage=[('req',)], shutdown_at_end=True, threads=['client', 'client', 'reactor']), b),
+        # the connection is full: two clients wait for the slot the reactor frees
         ('hc-last-slot', dict(hc, max_in_flight=3, stage=[('req',), ('req',)], shutdown_at_end=True,
                               threads=['client', 'client', 'reactor']), b),
         # the replacement was queued; its connect may be refused (then it is retried) while a client borrows
